@@ -835,6 +835,15 @@ class MockCA:
             body = body[: len(body) // 2]
         elif fault == "ok:emptybody":
             body = b""
+        elif fault == "ok:blankbody":
+            body = b"\n  \n"
+        elif fault == "ok:pem_then_garbage":
+            body = body + b"-----BEGIN CERTIFICATE-----\nthis is not base64\n-----END CERTIFICATE-----\n"
+        elif fault == "ok:other_key":
+            # a well-formed chain, but for another public key than the CSR's (the CA mixes up two orders)
+            other = self.vc.must("make_leaf", issuer_cert=self.issuer["cert_pem"], issuer_key=self.issuer["key_pem"], key_type="ecdsa_p256",
+                                 dns=["mixed-up.example.org"], ips=[])
+            body = other["cert_pem"].encode()
         ev["detail"] = {"cert": obj, "order": c["order"], "sha": hashlib.sha256(body).hexdigest(), "len": len(body),
                         "spki": c["spki"], "genuine": body == c["pem"].encode()}
         return 200, {"Content-Type": "application/pem-certificate-chain", "Replay-Nonce": self.new_nonce()}, body
